@@ -1,6 +1,7 @@
 //! Verification harness for almindor/mipidsi: generated-input checks of properties C01..C20.
 pub mod dut;
 pub mod exec;
+pub mod fuzzdec;
 pub mod gen;
 pub mod models;
 pub mod oracle;
